@@ -245,9 +245,62 @@ def build(inp):
         doc = parse_pagexml_file(inp.get('filename', 'gen.xml'), pagexml_data=render_xml(spec))
     else:
         doc = BUILDERS[spec['cls']](spec)
+    if inp.get('grow'):
+        grow(doc, inp['grow'], inp.get('read_after', False))
     for attr, idx in inp.get('path', []):
         doc = getattr(doc, attr)[idx]
     return doc
+
+
+REGION_LIKE = ('PageXMLTextRegion', 'PageXMLColumn', 'PageXMLScan')
+
+
+def _walk_containers(doc):
+    """every scan / page / column / text region of a document, outermost first"""
+    out = [doc]
+    for attr in ('pages', 'columns', 'text_regions', 'extra'):
+        for c in getattr(doc, attr, None) or []:
+            out.extend(_walk_containers(c))
+    return out
+
+
+def _read_all(doc):
+    """look at every container once, as a user inspecting a document does: JSON view and statistics"""
+    for o in _walk_containers(doc):
+        try:
+            o.json
+            o.stats
+        except Exception:  # noqa  (a page with direct lines has no JSON view; irrelevant here)
+            pass
+
+
+def grow(doc, steps, read_after=False):
+    """a construction history: inspect the document, then attach further children through `add_child` at
+    the given container paths (appends only, so paths computed on the spec stay valid)"""
+    for st in steps:
+        if st.get('read_before', True):
+            _read_all(doc)
+        target = doc
+        for attr, idx in st['path']:
+            target = getattr(target, attr)[idx]
+        target.add_child(BUILDERS[st['child']['cls']](st['child']))
+    if read_after:
+        _read_all(doc)
+
+
+def stale_stats(doc):
+    """the direct statistics clause: in the JSON view of every region-like container the counts equal a fresh
+    recount (the sizes of the traversals)"""
+    bad = []
+    for o in _walk_containers(doc):
+        if type(o).__name__ not in REGION_LIKE:
+            continue
+        st = o.json.get('stats', {})
+        want = {'lines': len(o.get_lines()), 'words': len(o.get_words()), 'text_regions': len(o.text_regions)}
+        for k, v in want.items():
+            if st.get(k) != v:
+                bad.append(f'{type(o).__name__} {o.id!r}: stats[{k!r}] = {st.get(k)!r}, a fresh count gives {v}')
+    return bad
 
 
 # ---------------------------------------------------------------------------------------
@@ -691,6 +744,61 @@ class Gen:
         return s
 
 
+def _prep_grown(s):
+    """a spec for a construction history: every region / line located (add_child re-derives the coordinates of
+    the container from its children), no reading order (a region attached later is not listed in it)"""
+    s = dict(s)
+    s.pop('ro', None)
+    s.pop('roa', None)
+    if s.get('cls') in ('text_region', 'line', 'column', 'page') and s.get('coords') is None:
+        s['coords'] = _P(3, 4, 30, 20)
+    for key in ('regions', 'lines', 'columns', 'pages', 'extra'):
+        if s.get(key):
+            s[key] = [_prep_grown(c) for c in s[key]]
+    return s
+
+
+def _container_paths(spec):
+    """(path, class) of every container of a spec that `add_child` can grow"""
+    out = [([], spec['cls'])]
+
+    def walk(s, path):
+        for key, attr in (('regions', 'text_regions'), ('columns', 'columns'), ('pages', 'pages'), ('extra', 'extra')):
+            for i, c in enumerate(s.get(key, []) or []):
+                p = path + [[attr, i]]
+                out.append((p, c['cls']))
+                walk(c, p)
+    walk(spec, [])
+    return out
+
+
+def grown_input(rng: random.Random, spec):
+    """a construction history on top of an API-built document: inspect, then 1-3 add_child calls at random depths"""
+    spec = _prep_grown(copy.deepcopy(spec))
+    conts = _container_paths(spec)
+    g = Gen(rng, False)
+    g.n = 1000
+    steps = []
+    for _ in range(rng.choice([1, 1, 2, 3])):
+        # deeper containers first in line: the defect class needs an ancestor that was looked at
+        path, cls = rng.choice(sorted(conts, key=lambda pc: -len(pc[0]))[:max(1, len(conts) * 2 // 3)] if rng.random() < 0.6
+                               else conts)
+        if cls == 'page':
+            kind = 'region'
+        else:
+            kind = rng.choice(['line', 'line', 'region'])
+        if kind == 'line':
+            child = _prep_grown(dict(g.line(), id=g.nid('gl')))
+            child['text'] = child['text'] or 'x y'
+        else:
+            child = _prep_grown(dict(g.region(2, False), id=g.nid('gr')))
+            if not child['lines']:
+                child['lines'] = [_prep_grown(dict(g.line(), id=g.nid('gl')))]
+        child.pop('types', None)
+        steps.append({'path': path, 'child': child, 'read_before': rng.random() < 0.85})
+    return {'spec': spec, 'route': 'api', 'grow': steps, 'read_after': rng.random() < 0.3}
+
+
 def sub_paths(spec, route) -> List[List[Any]]:
     """paths to sub-documents that can be JSON roots (regions, lines, words, columns, pages)"""
     out = []
@@ -761,7 +869,27 @@ def corpus() -> List[Case]:
         path=[['text_regions', 0], ['lines', 0]])
     add({'cls': 'scan', 'id': 's', 'regions': [R('r1', lines=[L('l1', words=[W('w1')])])]},
         path=[['text_regions', 0], ['lines', 0], ['words', 0]])
+    # construction histories: a container is inspected (json / stats), then grown through add_child below it
+    nested = {'cls': 'scan', 'id': 's', 'coords': _P(0, 0, 100, 100),
+              'regions': [R('outer', regions=[R('inner', lines=[L('l1', text='first line')])])]}
+    late = L('l2', text='second line of five words')
+    out.append(Case('roundtrip', {'spec': nested, 'route': 'api',
+                                  'grow': [{'path': [['text_regions', 0], ['text_regions', 0]], 'child': late, 'read_before': True}]},
+                    ['corpus', 'grown']))
+    out.append(Case('roundtrip', {'spec': nested, 'route': 'api', 'path': [['text_regions', 0]],
+                                  'grow': [{'path': [['text_regions', 0], ['text_regions', 0]], 'child': late, 'read_before': True}]},
+                    ['corpus', 'grown']))
+    out.append(Case('roundtrip', {'spec': nested, 'route': 'api', 'read_after': True,
+                                  'grow': [{'path': [], 'child': R('late', lines=[L('l3', text='late region')]), 'read_before': True},
+                                           {'path': [['text_regions', 1]], 'child': L('l4'), 'read_before': False}]},
+                    ['corpus', 'grown']))
     col = lambda i, x, **k: dict({'cls': 'column', 'id': i, 'coords': _P(x, 0, 10, 50)}, **k)
+    out.append(Case('roundtrip', {'spec': {'cls': 'page', 'id': 'p', 'coords': _P(0, 0, 60, 60),
+                                           'columns': [col('c1', 0, regions=[R('r5', lines=[L('l5')])])], 'regions': [R('r8')]},
+                                  'route': 'api',
+                                  'grow': [{'path': [['columns', 0], ['text_regions', 0]], 'child': L('l6'), 'read_before': True},
+                                           {'path': [['columns', 0]], 'child': R('r9', lines=[L('l7')]), 'read_before': True}]},
+                    ['corpus', 'grown']))
     add({'cls': 'page', 'id': 'p', 'coords': _P(0, 0, 60, 60),
          'columns': [col('c1', 0, regions=[R('r5', lines=[L('l5')])]), col('c2', 20, regions=[R('r6')], lines=[L('l7')])],
          'extra': [R('r7', lines=[L('l8')])], 'regions': [R('r8')]})
@@ -777,7 +905,7 @@ def corpus() -> List[Case]:
 
 MALFORM_OPS = ['del:id', 'del:type', 'del:metadata', 'del:text', 'del:coords', 'del:col', 'del:cell_span', 'del:row_span',
                'coords:empty', 'coords:short', 'coords:nonint', 'ro:badkey', 'ro:strkey', 'type:nopagexml', 'type:none',
-               'del:stats', 'del:main_type', 'del:lines', 'del:row']
+               'del:stats', 'del:main_type', 'del:lines', 'del:row', 'type:str', 'type:strjoin', 'guard:falsy']
 
 
 def _nodes(j, out=None):
@@ -815,8 +943,16 @@ def malform(j, op: str, which: int):
     elif kind == 'type':
         if arg == 'nopagexml':
             n['type'] = [t for t in n['type'] if t != 'pagexml_doc']
+        elif arg == 'str':
+            # a string `type`: the dispatch tests substrings then ('pagexml_doc_word' holds 'word')
+            n['type'] = 'pagexml_doc_' + (n['type'][2] if len(n['type']) > 2 else 'x')
+        elif arg == 'strjoin':
+            n['type'] = ' '.join(n['type'])
         else:
             n['type'] = ['pagexml_doc', 'unknown']
+    elif kind == 'guard':
+        # a falsy value other than None under a truthiness-guarded key (outside `guardsCanon`)
+        n['orientation' if 'orientation' in n or 'xheight' not in n else 'xheight'] = 0
     return True
 
 
@@ -878,14 +1014,19 @@ class C06(Check):
     }
     level_note = (
         'proved (Lean, no bound on sizes / nesting / values) for every class (word, line, text region (nested), column, page, '
-        'scan, with table regions/rows/cells below them): for every well-formed document d (Doc.ok: what the constructors and '
-        'the parser leave behind; decidable; checked by the driver on every generated document and on every rebuilt document) '
+        'scan, with table regions/rows/cells below them): (1) for every well-formed document d (WF = Doc.ok, decidable) '
         'fromJson(toJson d) = d, for the dictionary entry point and for the string entry point (reading-order indexes as '
-        'decimal strings, int() reads them back), hence identical JSON view, same class, second trip a fixpoint. '
-        'Sampled, not proved: that json.loads(json.dumps(v)) is the model\'s `norm` (int keys -> str) and that norm(toJson_int d) '
-        '= toJson_str d (the driver returns both, compared with the real encoder on every case); that every document coming out '
-        'of the builder is well-formed again (checked per case); C06_encodable (encodability is judged by the real json.dumps '
-        'on every case).')
+        'decimal strings), hence identical JSON view, same class, second trip a fixpoint; (2) C06_encodable / C06_norm / '
+        'C06_str_view_stable / C06_text_trip: for every JSON-valued d (JV = Doc.jv, decidable: ids, metadata, confidences, ... '
+        'hold no foreign object and no int-keyed dict) the view is encodable and norm(toJson_int d) = toJson_str d, where norm '
+        'models json.loads(json.dumps(.)); (3) closure: C06_wf_closed - EVERY document parse_pagexml_from_json returns, for any '
+        'JSON value it accepts whose truthiness-guarded entries (orientation, xheight, cornerpoints) are canonical, is WF; '
+        'C06_jv_closed - and JV when the value is decoded JSON text; C06_constructed_wf_* - each constructor (word ... scan, with '
+        're-parenting, reading-order sorting, row padding, set_scan_id) returns a WF document from WF children; C06_parsed_wf - '
+        'the scan the XML parser assembles is WF.  WF and JV are additionally evaluated by the driver on every generated and '
+        'every rebuilt document.  Not proved (sampled on every case): that the real json.dumps/json.loads is the model\'s `norm` '
+        '(int keys -> str, tuples -> lists; compared with the real encoder), finiteness of float literals (opaque), and that the '
+        'metadata the real parser computes from `custom` attributes is what the raw trees of C06_parsed_wf carry (C01/C11).')
     assumptions = [
         'abstraction: attributes that the library only ever tests for truthiness (orientation, xheight, cornerpoints) are '
         'identified with None when falsy (0.0, 0, ""), reading_order None with {}; main_type/domain are class constants',
@@ -921,6 +1062,15 @@ class C06(Check):
             if paths and rng.random() < 0.6:
                 p = rng.choice(paths)
                 out.append(Case('roundtrip', {'spec': spec, 'route': route, 'path': p}, [route, 'sub:' + p[-1][0]]))
+            if route == 'api' and spec['cls'] in ('scan', 'page', 'column', 'text_region') and rng.random() < (0.35 if tier == 'quick' else 0.5):
+                gi = grown_input(rng, spec)
+                if gi is not None:
+                    out.append(Case('roundtrip', gi, ['api', 'grown', spec['cls']]))
+                    if gi['grow'] and rng.random() < 0.4:
+                        ps = sub_paths(gi['spec'], 'api')
+                        ps = [p for p in ps if p[-1][0] in ('text_regions', 'columns', 'pages', 'extra')]
+                        if ps:
+                            out.append(Case('roundtrip', dict(gi, path=rng.choice(ps)), ['api', 'grown', 'sub']))
             if rng.random() < 0.5:
                 out.append(Case('malformed', {'spec': spec, 'route': route, 'op': rng.choice(MALFORM_OPS),
                                               'which': rng.randint(0, 30), 'as_string': rng.random() < 0.5},
@@ -956,6 +1106,10 @@ class C06(Check):
             self._abs[id(case)] = (a0, None, None)
             return out
         out['njson'] = json.loads(s)
+        try:
+            out['stats_bad'] = _quiet(lambda: stale_stats(doc))
+        except Exception as e:  # noqa
+            out['stats_bad'] = [f'recount raises {err_name(e)}']
         if case.kind == 'malformed':
             j = json.loads(s) if case.input['as_string'] else copy.deepcopy(j0)
             applicable = malform(j, case.input['op'], case.input['which'])
@@ -1006,15 +1160,23 @@ class C06(Check):
             return None if m == {'err': r['err']} else f'impl raises {r["err"]}, model {str(m)[:300]}'
         if r.get('none'):
             return None if m == {'ok': None} else f'impl returns None, model {str(m)[:300]}'
+        if 'unabstractable' in r['abs']:
+            # outside the model's scope (a page given direct lines: the model answers AttributeError, which is what
+            # the page's JSON view raises; the builder itself accepts them)
+            return None if (m == {'err': 'AttributeError'} or m.get('ok')) else f'impl builds {r["cls"]}, model {str(m)[:300]}'
         if 'ok' not in m or m['ok'] is None:
             return f'impl builds {r["cls"]}, model {str(m)[:300]}'
-        if 'unabstractable' in r['abs']:
-            return None
         d = _first_diff(_canon_abs(r['abs']), _canon_abs(_null_falsy_guarded(m['ok'])))
         if d is not None:
             return f'rebuilt document differs at {d}'
         if need_wf and not m.get('wf'):
             return 'the rebuilt document is not well-formed (Doc.ok): a second trip is not covered by the theorem'
+        # C06_wf_closed / C06_jv_closed, re-evaluated by the driver (would fail only if the driver's model and the
+        # proved model diverged)
+        if m.get('in_gc') and not m.get('wf'):
+            return 'driver: canonical JSON value rebuilt to a document that is not well-formed (contradicts C06_wf_closed)'
+        if m.get('in_stable') and not m.get('jv'):
+            return 'driver: JSON-stable value rebuilt to a document that is not JSON-valued (contradicts C06_jv_closed)'
         return None
 
     def compare(self, case, out, model_out):
@@ -1036,6 +1198,16 @@ class C06(Check):
                     return f'JSON view after dumps/loads ({form}) differs at {d}'
         if tj['ok']['encodable'] != bool(out.get('dumps_ok')):
             return f'encodable: model {tj["ok"]["encodable"]}, json.dumps ok {out.get("dumps_ok")}'
+        # JV (every carried value survives JSON text): C06_encodable / C06_norm are theorems about JV
+        # documents.  A parsed document must be JV; a JV document must encode; a non-JV one is user data.
+        jv = bool(tj['ok'].get('jv'))
+        case.tags.append('JV' if jv else 'not-JV')
+        if jv and not out.get('dumps_ok'):
+            return 'a JSON-valued document (Doc.jv) is rejected by json.dumps: C06_encodable does not describe the encoder'
+        if not jv and case.input.get('route') == 'xml':
+            return 'a parsed document is not JSON-valued (Doc.jv): C06_encodable / C06_norm do not cover it'
+        if not tj['ok'].get('gc') and case.input.get('route') == 'xml':
+            return 'the JSON view of a parsed document is outside guardsCanon: C06_wf_closed does not cover its rebuild'
         if case.kind == 'malformed':
             return self._cmp_rebuilt(out['rebuilt'], model_out[1]) if len(model_out) > 1 else None
         # is the document covered by the round-trip theorem?  Parsed documents always must be.
@@ -1069,6 +1241,8 @@ class C06(Check):
             # only values the library itself put there count: user metadata that is not encodable is the user's
             bad('not-encodable', f'json.dumps(doc.json) raises {out.get("dumps_err")}')
             return fs
+        for b in out.get('stats_bad') or []:
+            bad('stale-stats', f'the statistics in doc.json are not a count of the document: {b}')
         want = out['njson']
         for name in ('dict', 'str'):
             r = out[name]
@@ -1107,6 +1281,14 @@ class C06(Check):
     def shrink_candidates(self, case: Case):
         inp = case.input
         spec = inp['spec']
+        if inp.get('grow'):
+            steps = inp['grow']
+            for i in range(len(steps)):
+                if len(steps) > 1:
+                    yield Case(case.kind, dict(inp, grow=steps[:i] + steps[i + 1:]), case.tags)
+            if inp.get('read_after'):
+                yield Case(case.kind, dict(inp, read_after=False), case.tags)
+            return
         if inp.get('path'):
             return
 
